@@ -231,23 +231,90 @@ class Facts:
         """(file, lo, hi, kind, crate) without parsing."""
         return self._index["meta"][path]
 
-    def body(self, path):
+    # ---- rename-tolerant anchors ----------------------------------------------------
+    # rules/anchor_fingerprints.json (written only by `./fv anchors`) records, for every function a rule looked up by
+    # name on the pinned tree, the multiset of its callees.  When a lookup by name fails, the unique function of the
+    # same crate whose callees match that fingerprint is used instead: a renamed or moved function keeps being checked
+    # by the rules written for it, instead of failing closed with "anchor not found".
+    _FP = None
+    _RECORD = {}
+
+    @classmethod
+    def _fingerprints(cls):
+        if cls._FP is None:
+            p = os.path.join(VERIF, "rules", "anchor_fingerprints.json")
+            cls._FP = json.load(open(p)) if os.path.exists(p) else {}
+        return cls._FP
+
+    def _callee_bag(self, b):
+        bag = {}
+        for _, t in b.calls():
+            c = t.callee
+            if c == b.path:
+                c = "<self>"
+            bag[c] = bag.get(c, 0) + 1
+        return bag
+
+    def _record_anchor(self, request, b):
+        if os.environ.get("FV_RECORD_ANCHORS") and b is not None and self.config == "union":
+            Facts._RECORD[request] = {"path": b.path, "crate": b.crate, "file": b.file, "blocks": len(b.blocks),
+                                      "callees": self._callee_bag(b)}
+
+    def _fuzzy_anchor(self, request):
+        fp = self._fingerprints().get(request)
+        if not fp or len(fp["callees"]) < 3:
+            return None
+        want = fp["callees"]
+        best = []
+        for path, m in self._index["meta"].items():
+            if m[4] != fp["crate"] or m[3] != "fn":
+                continue
+            b = self.body(path, _fuzzy=False)
+            if b is None:
+                continue
+            have = self._callee_bag(b)
+            inter = sum(min(v, have.get(k, 0)) for k, v in want.items())
+            union = sum(max(v, have.get(k, 0)) for k, v in want.items()) + sum(v for k, v in have.items() if k not in want)
+            score = inter / union if union else 0.0
+            if b.file == fp["file"]:
+                score += 0.05
+            if score >= 0.7:
+                best.append((score, path))
+        best.sort(reverse=True)
+        if best and (len(best) == 1 or best[0][0] - best[1][0] >= 0.1):
+            # the old name must really be gone (otherwise the lookup would not have failed) and the new one must not be
+            # an anchor of its own
+            if best[0][1] not in {v["path"] for v in self._fingerprints().values()}:
+                log(f"anchor `{request}` not found by name; using `{best[0][1]}` (callee fingerprint match {best[0][0]:.2f})")
+                return self.body(best[0][1], _fuzzy=False)
+        return None
+
+    def body(self, path, _fuzzy=True):
         from .mir import Body
         if path in self._body_cache:
-            return self._body_cache[path]
+            b = self._body_cache[path]
+            if _fuzzy:
+                self._record_anchor(path, b)
+            return b
         ents = self._index["body"].get(path)
         if not ents:
+            if _fuzzy:
+                fb = self._fuzzy_anchor(path)
+                if fb is not None:
+                    return fb
             return None
         c, off, ln = ents[0]
         b = Body(self._read(c, off, ln))
         self._body_cache[path] = b
+        if _fuzzy:
+            self._record_anchor(path, b)
         return b
 
     def bodies_where(self, pred):
         """pred(path, file, lo, hi, kind, crate) -> bool; yields Body objects."""
         for path, m in self._index["meta"].items():
             if pred(path, *m):
-                yield self.body(path)
+                yield self.body(path, _fuzzy=False)
 
     def bodies_in_files(self, crate, file_res, kinds=("fn", "closure")):
         rs = [re.compile(r) for r in file_res]
@@ -261,13 +328,16 @@ class Facts:
             if crate and m[4] != crate:
                 continue
             if r.search(path):
-                out.append(self.body(path))
+                out.append(self.body(path, _fuzzy=False))
         return out
 
     def one_body(self, regex, crate=None):
         bs = self.find_bodies(regex, crate)
         if len(bs) != 1:
+            if not bs:
+                return self._fuzzy_anchor("re:" + regex)
             return None
+        self._record_anchor("re:" + regex, bs[0])
         return bs[0]
 
     # ---- other records -------------------------------------------------------------
@@ -282,4 +352,4 @@ class Facts:
             if crate and m[4] != crate:
                 continue
             if m[3] in kinds:
-                yield self.body(path)
+                yield self.body(path, _fuzzy=False)
